@@ -38,20 +38,51 @@ func c14ReadWithLibpcap(file []byte, maxPkts int) ([]pcRes, error) {
 	if err != nil {
 		return nil, fmt.Errorf("OpenOffline: %v", err)
 	}
-	defer h.Close()
+	out := c14DrainHandle(h, maxPkts)
+	h.Close()
+	// the same file through the other offline entry point (an *os.File handed to libpcap)
+	if of, err := os.Open(name); err == nil {
+		c14KeptFiles = append(c14KeptFiles, of) // libpcap's fclose owns the descriptor from here on: never let Go close it
+		h2, err := pcap.OpenOfflineFile(of)
+		if err != nil {
+			return nil, fmt.Errorf("OpenOfflineFile: %v", err)
+		}
+		out2 := c14DrainHandle(h2, maxPkts)
+		h2.Close()
+		if !c14SameRes(out, out2) {
+			return out2, nil
+		}
+	}
+	return out, nil
+}
+
+var c14KeptFiles []*os.File
+
+func c14SameRes(a, b []pcRes) bool {
+	if len(a) != len(b) {
+		return false
+	}
+	for i := range a {
+		x, y := a[i], b[i]
+		if x.cls != y.cls || x.sec != y.sec || x.nsec != y.nsec || x.caplen != y.caplen || x.length != y.length || string(x.data) != string(y.data) {
+			return false
+		}
+	}
+	return true
+}
+
+func c14DrainHandle(h *pcap.Handle, maxPkts int) []pcRes {
 	var out []pcRes
 	for i := 0; i <= maxPkts; i++ {
 		data, ci, err := h.ReadPacketData()
 		if err == io.EOF {
-			out = append(out, pcRes{cls: "eof"})
-			return out, nil
+			return append(out, pcRes{cls: "eof"})
 		}
 		if err != nil {
-			out = append(out, pcRes{cls: "err", detail: err.Error()})
-			return out, nil
+			return append(out, pcRes{cls: "err", detail: err.Error()})
 		}
 		out = append(out, pcRes{cls: "ok", sec: ci.Timestamp.Unix(), nsec: int64(ci.Timestamp.Nanosecond()),
 			caplen: ci.CaptureLength, length: ci.Length, data: append([]byte(nil), data...)})
 	}
-	return out, nil
+	return out
 }
